@@ -74,6 +74,7 @@ type BurstCfg struct {
 	PerProd   int   `json:"per_producer"`
 	Items     []int `json:"items"`
 	Closers   int   `json:"closers"`
+	Rounds    int   `json:"rounds"`
 }
 
 // StressCfg is the input of a stress case.
@@ -458,7 +459,10 @@ func runSched(cfg SchedCfg, decide func(ready []int, k int) int) schedResult {
 		}
 	}
 	if !res.broken {
-		res.finalLen = q.Len()
+		if guarded(hangAfter, func() { res.finalLen = q.Len() }) {
+			res.broken = true
+			res.steps = append(res.steps, Step{T: tidCons, E: "hang", P: "Len"})
+		}
 	}
 	s.Abort(func() {
 		defer func() { recover() }() // a broken Close must not take the harness down
@@ -638,11 +642,44 @@ func runBulk(script [][2]int) (news []int, length int, dels [][2]int, broken boo
 }
 
 func runBurst(cfg BurstCfg) (ins [][3]int, length int, dels [][2]int, broken bool) {
+	rounds := cfg.Rounds
+	if rounds < 1 {
+		rounds = 1
+	}
+	// Several fresh queues are tried; the round reported is the first on
+	// which Len() differs from the number of distinct items inserted (only a
+	// choice of which round to hand to the checker), else the last one.
+	for r := 0; r < rounds; r++ {
+		ins, length, dels, broken = runBurst1(cfg)
+		used := 0
+		for _, t := range ins {
+			if t[1] > 0 {
+				used++
+			}
+		}
+		if broken || length != used || len(dels) != used {
+			return
+		}
+	}
+	return
+}
+
+// spinBarrier releases n goroutines as closely together as possible.
+type spinBarrier struct{ n, arrived int32 }
+
+func (b *spinBarrier) wait() {
+	atomic.AddInt32(&b.arrived, 1)
+	for atomic.LoadInt32(&b.arrived) < b.n {
+		runtime.Gosched()
+	}
+}
+
+func runBurst1(cfg BurstCfg) (ins [][3]int, length int, dels [][2]int, broken bool) {
 	broken = guarded(60*time.Second, func() {
 		q := coalesce.NewQueue()
 		calls := make([]int64, len(cfg.Items))
 		trues := make([]int64, len(cfg.Items))
-		start := make(chan struct{})
+		bar := &spinBarrier{n: int32(cfg.Producers)}
 		var wg sync.WaitGroup
 		var bad int32
 		for p := 0; p < cfg.Producers; p++ {
@@ -655,7 +692,7 @@ func runBurst(cfg BurstCfg) (ins [][3]int, length int, dels [][2]int, broken boo
 						atomic.StoreInt32(&bad, 1)
 					}
 				}()
-				<-start
+				bar.wait()
 				for k := 0; k < cfg.PerProd; k++ {
 					x := (p + k) % len(cfg.Items)
 					ok, err := q.Insert(itemVal(cfg.Items[x]))
@@ -670,11 +707,10 @@ func runBurst(cfg BurstCfg) (ins [][3]int, length int, dels [][2]int, broken boo
 				}
 			}()
 		}
-		close(start)
 		wg.Wait()
 		length = q.Len()
 		// concurrent Close calls: exactly what Close's lock is for
-		startC := make(chan struct{})
+		barC := &spinBarrier{n: int32(cfg.Closers)}
 		for c := 0; c < cfg.Closers; c++ {
 			wg.Add(1)
 			go func() {
@@ -684,11 +720,10 @@ func runBurst(cfg BurstCfg) (ins [][3]int, length int, dels [][2]int, broken boo
 						atomic.StoreInt32(&bad, 1)
 					}
 				}()
-				<-startC
+				barC.wait()
 				q.Close()
 			}()
 		}
-		close(startC)
 		wg.Wait()
 		var ok bool
 		dels, ok = drain(q, length+len(cfg.Items)+2)
@@ -1382,7 +1417,14 @@ func main() {
 	flag.Set("logtostderr", "true")
 	o := vh.ParseFlags()
 	coalesce.VerifHook = hookDispatch
-	meta := vh.NewMeta("corpus; mode E: every canonical sequence of <=L operations (quick L=5, thorough L=6) over {Insert 0, Insert 1, Next(cancelled ctx), Next(1ms ctx), Close, Len, IsClosed} and every canonical sequence of L+1 operations over the same alphabet without Next(1ms ctx) and IsClosed, each followed by Len, Close and 3 draining Next, plus seeded random sequences of 4..40 operations over 2-3 items; mode S: blind depth-first enumeration of the schedules of small producer/consumer/Close/Cancel configurations under the barrier scheduler plus seeded random walks over 1-2 producers (1-2 inserts each, items {0,1}) x consumer (1-4 Next) x Close x Cancel, each trace kept only when reproduced; stress: free-running producers with one consumer. distinct = distinct operation sequence resp. distinct (programs, recorded trace); non-trivial = (E) an accepted Insert and a Next that returned an item, (S) at least one producer step and one consumer step")
+	// a pending timer keeps the runtime's "all goroutines are asleep" detector
+	// quiet when a broken implementation deadlocks every thread of a run
+	go func() {
+		for {
+			time.Sleep(time.Hour)
+		}
+	}()
+	meta := vh.NewMeta("corpus; mode E: every canonical sequence of <=L operations (quick L=5, thorough L=6) over {Insert 0, Insert 1, Next(cancelled ctx), Next(1ms ctx), Close, Len, IsClosed} and every canonical sequence of L+1 operations over the same alphabet without Next(1ms ctx) and IsClosed, each followed by Len, Close and 3 draining Next, plus seeded random sequences of 4..40 operations over 2-3 items; mode S: blind depth-first enumeration of the schedules of small producer/consumer/Close/Cancel configurations under the barrier scheduler plus seeded random walks over 1-2 producers (1-2 inserts each, items {0,1}) x consumer (1-4 Next) x Close x Cancel, each trace kept only when reproduced; bulk: 255..65537 insertions of one pending item, 1..300 distinct pending items, all pairs of items of mixed Go types (int, string, int64, nil, pointers, struct); burst: 2-16 goroutines released together insert the same / a few items into fresh queues with nobody consuming, then concurrent Closes; ping: producer and consumer in lock-step (4 x 20000 rounds); ctx error kind; stress: free-running producers with one consumer. distinct = distinct operation sequence resp. distinct (programs, recorded trace); non-trivial = (E) an accepted Insert and a Next that returned an item, (S) at least one producer step and one consumer step")
 	e := &emitter{dir: o.Out, cf: vh.NewCaseFile(), meta: meta, limit: 1500}
 
 	if o.Replay != "" {
@@ -1521,14 +1563,19 @@ func main() {
 	e.addCtxErr("ctxerr", "cancelled")
 	e.addCtxErr("ctxerr", "short")
 	// burst / ping: real concurrency
-	nburst, nping, pingRounds := 300, 4, 20000
+	nburst, nping, pingRounds, burstRounds := 200, 4, 20000, 40
 	if o.Thorough() {
-		nburst, nping, pingRounds = 5000, 20, 100000
+		nburst, nping, pingRounds, burstRounds = 2000, 20, 100000, 100
 	}
 	for i := 0; i < nburst; i++ {
 		rr := r.Fork()
 		items := []int{0, 1, 5, 6}[:1+rr.Intn(3)]
-		e.addBurst("burst", BurstCfg{Producers: 2 + rr.Intn(6), PerProd: 1 + rr.Intn(3), Items: items, Closers: 2 + rr.Intn(3)})
+		cfg := BurstCfg{Producers: 2 + rr.Intn(6), PerProd: 1 + rr.Intn(3), Items: items, Closers: 2 + rr.Intn(7), Rounds: burstRounds}
+		if i%2 == 0 {
+			// all producers insert the same new item at the same moment
+			cfg = BurstCfg{Producers: []int{2, 4, 8, 16}[rr.Intn(4)], PerProd: 1, Items: []int{[]int{0, 5, 6}[rr.Intn(3)]}, Closers: 8, Rounds: 10 * burstRounds}
+		}
+		e.addBurst("burst", cfg)
 	}
 	for i := 0; i < nping; i++ {
 		e.addPing("ping", pingRounds)
